@@ -83,6 +83,14 @@ pub trait Property: Sync {
     fn fuzz_case(&self, _data: &[u8]) -> Option<Self::Case> {
         None
     }
+    /// extra starting inputs for the coverage-guided tier (beyond pseudo-random ones)
+    fn fuzz_seed_corpus(&self, _seed: u64) -> Vec<Vec<u8>> {
+        Vec::new()
+    }
+    /// longest input the coverage-guided tier may build
+    fn fuzz_max_len(&self) -> usize {
+        4096
+    }
     fn technique(&self) -> &'static str {
         "property-based testing (proptest): generated cases against an explicit oracle"
     }
@@ -230,7 +238,24 @@ pub struct RunOptions {
     pub cases_override: Option<u32>,
     /// ignore known_findings.json (used when measuring sensitivity)
     pub strict: bool,
+    /// instrumented libFuzzer binary (thorough tier); None: no coverage-guided campaign
+    pub fuzz_bin: Option<String>,
+    pub fuzz_secs: u64,
+    /// the campaign driver (fuzzrun::run_campaign); None in binaries that have no coverage-guided tier
+    pub fuzz_driver: Option<FuzzDriver>,
 }
+
+pub struct FuzzOutcome {
+    /// replay files written by fuzz workers that reported a violation
+    pub replays: Vec<String>,
+    /// merged statistics for the evidence file
+    pub summary: Value,
+    /// timeouts / OOMs / crashes that are not verdicts
+    pub harness_notes: Vec<String>,
+}
+
+/// (fuzz binary, verif root, property id, seed, seconds, workers, extra corpus, max input length, strict)
+pub type FuzzDriver = fn(&str, &str, &str, u64, u64, usize, &[Vec<u8>], usize, bool) -> Result<FuzzOutcome, String>;
 
 /// Splits violations into (unknown, known-entry-signatures)
 pub fn classify(violations: &[Violation], known: &[KnownFinding]) -> (Vec<Violation>, Vec<String>) {
@@ -536,6 +561,46 @@ pub fn run_property<P: Property>(p: &P, opts: &RunOptions) -> i32 {
         }
     }
 
+    // --- coverage-guided campaign (thorough tier) ---------------------------------------------------------------
+    let mut fuzz_summary = Value::Null;
+    if violation_lines.is_empty() && opts.tier == Tier::Thorough && opts.fuzz_secs > 0 {
+        if let (Some(bin), Some(driver)) = (&opts.fuzz_bin, opts.fuzz_driver) {
+            if p.fuzz_case(&[0u8; 64]).is_some() {
+                let seeds = p.fuzz_seed_corpus(opts.seed);
+                match driver(bin, &opts.verif_root, id, opts.seed, opts.fuzz_secs, opts.shards, &seeds, p.fuzz_max_len(), opts.strict) {
+                    Err(e) => harness_errors.push(format!("coverage-guided campaign: {}", e)),
+                    Ok(out) => {
+                        fuzz_summary = out.summary;
+                        for n in out.harness_notes.iter().take(5) {
+                            eprintln!("note (coverage-guided campaign): {}", n);
+                        }
+                        // every case a fuzz worker reported is judged again by this (non-instrumented) build
+                        for path in &out.replays {
+                            let case: Option<P::Case> = std::fs::read_to_string(path).ok().and_then(|t| serde_json::from_str::<Value>(&t).ok()).and_then(|d| serde_json::from_value(d["case"].clone()).ok());
+                            match case {
+                                None => harness_errors.push(format!("coverage-guided campaign: cannot read back {}", path)),
+                                Some(case) => match safe_check(p, &case) {
+                                    Err(e) => harness_errors.push(e),
+                                    Ok(r) => {
+                                        let (unknown, _) = classify(&r.violations, &known);
+                                        if unknown.is_empty() {
+                                            harness_errors.push(format!("coverage-guided campaign: the violation saved in {} does not reproduce in the non-instrumented build", path));
+                                        } else {
+                                            for v in &unknown {
+                                                println!("violation (coverage-guided): rule={} signature={} detail={}", v.rule, v.signature, v.detail);
+                                            }
+                                            violation_lines.push(format!("VIOLATION property={} replay={}", id, path));
+                                        }
+                                    }
+                                },
+                            }
+                        }
+                    }
+                }
+            }
+        }
+    }
+
     // --- report -----------------------------------------------------------------------------------------------
     let wall = started.elapsed().as_secs_f64();
     let mut samples: Vec<Value> = Vec::new();
@@ -573,6 +638,7 @@ pub fn run_property<P: Property>(p: &P, opts: &RunOptions) -> i32 {
             "shards": opts.shards,
             "cases_per_shard": cases,
             "technique": p.technique(),
+            "coverage_guided": fuzz_summary,
         },
         "assumptions": p.assumptions(),
         "wall_s": wall,
